@@ -122,6 +122,11 @@ impl Parser for HeadParser {
     fn global_offset(&self) -> Offset {
         Offset::new(self.pos as u64)
     }
+    // the trait has this extra method in test builds (which is what a native replay compiles)
+    #[cfg(test)]
+    fn tell(&self) -> Offset {
+        Offset::new(self.pos as u64)
+    }
     fn skip(&mut self, size: usize) -> Result<()> {
         if self.pos + size > 252 {
             return Err(format_error!("out of block"));
